@@ -12,6 +12,14 @@
 #include <time.h>
 #include <unistd.h>
 
+#if defined(__has_feature)
+#    if __has_feature(address_sanitizer) && !defined(__SANITIZE_ADDRESS__)
+#        define __SANITIZE_ADDRESS__ 1
+#    endif
+#    if __has_feature(thread_sanitizer) && !defined(__SANITIZE_THREAD__)
+#        define __SANITIZE_THREAD__ 1
+#    endif
+#endif
 #if defined(__SANITIZE_ADDRESS__)
 #    include <sanitizer/asan_interface.h>
 #    define MON_ASAN 1
